@@ -12,5 +12,6 @@ pub mod par;
 pub mod cuckoo;
 pub mod extendpaths;
 pub mod guards;
+pub mod childprobe;
 
 pub use hashers::{Ev, Key, TableHasher};
